@@ -1,7 +1,11 @@
 META = {
     "assumptions": ["allocation failure out of scope (--no-malloc-may-fail)",
                     "fix_problem is stubbed to answer yes in the idempotence kernels (the -y protocol itself is decided in fixproblem)"],
-    "outside": ["whole-run convergence of e2fsck -fy followed by -fn (the property proper): only self-contained kernels are decided"],
+    "outside": ["whole-run convergence of e2fsck -fy followed by -fn (the property proper): only self-contained kernels are decided; for the pass 3 / 4 / 5 kernels the "
+                "second run is decided on the state the first run provably leaves, ASSUMING passes 1-2 of the second run rebuild the same tables from the disk",
+                "pass 3: directories on a cycle of parents (never reported on this tree: C02 finding), real e2fsck_reconnect_file / fix_dotdot (cut), reconnect failures",
+                "pass 4: EA-inode reference consolidation, > 128-byte inodes, failing reconnects; pass 5: bigalloc, BLOCK_UNINIT reconstruction by the loader (assumed to "
+                "mark no block that pass 1 does not mark)"],
 }
 HARNESSES = [
     dict(name="fixproblem", src="fixproblem.c",
@@ -102,7 +106,8 @@ HARNESSES.append(
          funcs=["check_block_bitmaps", "print_bitmap_problem", "ext2fs_bg_free_blocks_count", "ext2fs_bg_free_blocks_count_set", "ext2fs_bg_flags_clear",
                 "ext2fs_free_blocks_count_set", "ext2fs_blocks_count", "ext2fs_bitcount"],
          configs=[{"ANSWER": 1, "NG": 2, "DSZ": 32, "FDB": 1, "LAST": 2, "DISCARD": None},
-                  {"ANSWER": 1, "NG": 2, "DSZ": 32, "FDB": 0, "LAST": 2, "SECOND": None},
+                  {"ANSWER": 1, "NG": 2, "DSZ": 32, "FDB": 1, "LAST": 2, "SECOND": None, "DISCARD": None},
+                  {"ANSWER": 1, "NG": 2, "DSZ": 32, "FDB": 0, "LAST": 2, "SECOND": None, "_tier": "thorough"},
                   {"ANSWER": 1, "NG": 2, "DSZ": 32, "FDB": 1, "LAST": 5, "DISCARD": None, "_tier": "thorough"},
                   {"ANSWER": 1, "NG": 2, "DSZ": 32, "FDB": 0, "LAST": 2, "_tier": "thorough"},
                   {"ANSWER": 1, "NG": 2, "DSZ": 64, "FDB": 0, "LAST": 8, "DISCARD": None, "_tier": "thorough"},
@@ -155,6 +160,12 @@ MANIFEST = {
             "(5) pass-5 padding repair (check_block_end / check_inode_end): padding set, the RIGHT bitmap dirtied, clean after flush+reload, nothing touched under 'no'; "
             "(6) rewrite_extent_replay writes exactly the (lblk -> pblk, state) relation of the list in pieces within the on-disk limits; "
             "(7) calculate_tree at block size 64 builds a well-formed 1/2/3-level htree index (headers, order, hashes) for 1..29 leaves. "
+            "(8) pass 5 count / bitmap repair (check_block_bitmaps, check_inode_bitmaps, answer yes): afterwards fs->block_map / inode_map equal what passes 1-4 found, every group "
+            "and superblock count equals the counted value, the *_UNINIT flags are cleared where needed, the bitmap is marked dirty iff replaced, the super dirty when a count changed, "
+            "no other descriptor byte changes; what the next run loads (bitmap written iff dirty) equals the found usage, and on exactly that state the kernel raises nothing and "
+            "changes nothing (SECOND queries); (9) pass 4 (e2fsck_pass4 + disconnect_inode, yes): every checked inode ends cleared, or referenced with i_links_count == references; "
+            "a second run on the recomputed counters raises nothing and writes nothing; (10) pass 3 (check_directory over the table, yes): every parentless directory is reconnected "
+            "(parent = '..' = lost+found), every wrong '..' rewritten, afterwards no chain dangles, and a second run is silent. "
             "Whole-run convergence of e2fsck -fy / -fn is outside.",
     "note": "Trusted: CBMC's C semantics; fix_problem stubbed to 'yes' in the kernels; the caller's dirent validity test restated from the format; "
             "find_problem cut to a slot-copying stub in fixproblem; the real find_problem is decided over the whole real table in harness find_problem "
